@@ -42,7 +42,7 @@ class TVDLimiter:
         return A.elementwise(one, [bound["a"], bound["b"]], name="phi")
 
 
-def build(chk):
+def _build_own(chk):
     it = chk.interp
     chk.assumptions += [
         "machine arithmetic treated as mathematical (real) arithmetic",
@@ -229,3 +229,10 @@ print("RUNS", runs, "BAD", bad)
                        backend="bounded")
     except Exception as e:
         chk.notes.append("bounded TVD stand-in could not be run: %r" % (e,))
+
+
+def build(chk):
+    _build_own(chk)
+    # the limiter contract the step lemmas are stated over (TVD-region clauses of every limiter, C12)
+    from . import C12
+    chk.include(C12, r"/(scalar|array)$", "uses:C12")
